@@ -15,6 +15,8 @@ claim("C11", "must-check on both command send closures (provenance of compared v
       "Every path that uses a reply's completion code has compared the decoded NetFn and command with values derived from the request's Operation().", "DESIGN.md §4 C11")
 claim("C12", "initialiser tables + selector CFG shape + must-check on the constructor + nil-return enumeration",
       "Defaults [17,3] and suite triples; selection order; the Open Session Response algorithms are compared with the proposal on every success path; algorithm constructors never return (nil,nil).", "DESIGN.md §4 C12")
+claim("C17", "effects analysis: definite full assignment of receiver fields over all success paths with callee summaries + E1-proven copy totality; fresh/dirty typestate",
+      "For all 36 decoders: every field written on some success path is written in full on every success path; connection layers are re-initialised before each serialisation; the completion code is read after the same call's exchange.", "DESIGN.md §3 E4, §4 C17")
 claim("C18", "CFG path counting of metric events resolved to registered metric names",
       "Per call and per closure invocation, on every path, the number of Inc/Dec events per metric equals what the path's outcome requires; no other update sites exist.", "DESIGN.md §4 C18")
 claim("C13", "deadline-before-I/O ordering, context provenance (ctx threading) over all call sites, blocking-primitive census, loop classification",
@@ -27,12 +29,12 @@ claim("C16", "loop-shape analysis (natural loops, who-writes induction field, pr
       "Both paged enumerations: chunk/page handling on every path, termination arguments, record grammar constants, expansion order, nil-on-error, fallback condition and key mapping. Not completeness against every BMC chunking.", "DESIGN.md §4 C16")
 claim("C20", "initialiser tables, exact predicate true-sets, normal forms / structural shape of bit-copy conversions",
       "PARTIAL: decides the table/predicate/bit-copy clauses only (BCD-plus table, decoder table, entity-instance ranges, time-unit table, zero/sign-extension parsers, bcd.Decode normal form, checksum shape); the arithmetic conversions are listed as not decided in the evidence.", "DESIGN.md §4 C20")
+claim("C19", "interprocedural may-alias taint from package-level variables (field-based heap, CHA-resolved dynamic calls) + who-writes rule",
+      "No store, map update, copy/append destination or external writer receives a value that may point into package-level state outside initialisers and the one documented registration function; no such pointer is stored into per-connection objects; the library starts no goroutines. An ownership argument, not a schedule exploration.", "DESIGN.md §3 E4, §4 C19")
 for p, why in {
     "C03": "rule set not built yet (engines E2/E4)",
     "C06": "rule set not built yet (engine E2)",
     "C07": "rule set not built yet (engine E2)",
     "C08": "rule set not built yet (engine E2)",
-    "C17": "rule set not built yet (engine E4)",
-    "C19": "rule set not built yet (engine E4)",
 }.items():
     na(p, why)
